@@ -2,6 +2,7 @@
    machine over the public ways of reading and changing an Axis object. *)
 From DA Require Import Prelude NDArray Array PyRT.
 From DA.Model Require Import Value Reshape SliceSpec Indexing Align.
+From DA.Gen Require Import axis_cache.     (* what each Axis method does to `_monotonic`: GENERATED from core/axes.py *)
 Open Scope string_scope.
 Open Scope nat_scope.
 Open Scope list_scope.
@@ -21,32 +22,29 @@ Inductive cop :=
 Inductive cout := ONone | OBool (b : bool) | OErr (e : exn).
 
 Definition cstep (s : cax) (o : cop) : cax * cout :=
+  let t := is_monotonic_labels (cl s) in
   match o with
   | CQuery =>
-      match cm s with
-      | Some b => (s, OBool b)
-      | None => let b := is_monotonic_labels (cl s) in ({| cl := cl s; ck := ck s; cm := Some b |}, OBool b)
-      end
+      let m := g_cache_is_monotonic (cm s) t false in
+      ({| cl := cl s; ck := ck s; cm := m |}, OBool (match m with Some b => b | None => false end))
   | CSetItem i l lk =>
       match py_index (List.length (cl s)) i with
-      | Ok p => ({| cl := set_nth p l (cl s); ck := cast_kind (ck s) lk; cm := None |}, ONone)
+      | Ok p => let ls := set_nth p l (cl s) in
+                ({| cl := ls; ck := cast_kind (ck s) lk; cm := g_cache_setitem (cm s) (is_monotonic_labels ls) false |}, ONone)
       | Err e => ({| cl := cl s; ck := cast_kind (ck s) lk; cm := cm s |}, OErr e)   (* the cast precedes the failing assignment *)
       end
   | CSetValues k ls =>
       if negb (List.length ls =? List.length (cl s)) then (s, OErr ValueError)
-      else ({| cl := ls; ck := k; cm := None |}, ONone)
-  | CSort => ({| cl := sort_labels (cl s); ck := ck s; cm := None |}, ONone)
-  | CSlice a b =>
-      ({| cl := firstn (b - a) (skipn a (cl s)); ck := ck s;
-          cm := match cm s with Some true => Some true | _ => None end |}, ONone)
-  | CReverse =>
-      ({| cl := rev (cl s); ck := ck s; cm := match cm s with Some true => Some true | _ => None end |}, ONone)
+      else ({| cl := ls; ck := k; cm := g_cache_values_setter (cm s) (is_monotonic_labels ls) false |}, ONone)
+  | CSort => let ls := sort_labels (cl s) in ({| cl := ls; ck := ck s; cm := g_cache_sort (cm s) (is_monotonic_labels ls) false |}, ONone)
+  | CSlice a b => ({| cl := firstn (b - a) (skipn a (cl s)); ck := ck s; cm := g_cache_getitem (cm s) t true |}, ONone)
+  | CReverse => ({| cl := rev (cl s); ck := ck s; cm := g_cache_getitem (cm s) t true |}, ONone)
   | CTake idx =>
       match mapM (py_index (List.length (cl s))) idx with
-      | Ok ps => ({| cl := map (nth_lab (cl s)) ps; ck := ck s; cm := None |}, ONone)
+      | Ok ps => ({| cl := map (nth_lab (cl s)) ps; ck := ck s; cm := g_cache_take (cm s) t false |}, ONone)
       | Err e => (s, OErr e)
       end
-  | CCopy => (s, ONone)
+  | CCopy => ({| cl := cl s; ck := ck s; cm := g_cache_copy (cm s) t false |}, ONone)
   end.
 
 Definition crun (ops : list cop) (s : cax) : cax * list cout :=
